@@ -334,4 +334,30 @@ theorem lookup_zip_inj {ks : List VarId} {ns : List Name} {x y : VarId} {n : Nam
         rw [e1] at hx; rw [e2] at hy
         exact ih hn.2 hx hy
 
+theorem map_snd_zip_sublist {α β : Type} (a : List α) (b : List β) :
+    ((a.zip b).map Prod.snd).Sublist b := by
+  induction a generalizing b with
+  | nil => simp
+  | cons x a ih =>
+    cases b with
+    | nil => simp
+    | cons y b => simpa using ih b
+
+theorem splitColon_key (k rest : List Char) (hk : ':' ∉ k) :
+    splitColon (k ++ ':' :: rest) = (k, some rest) := by
+  induction k with
+  | nil => simp [splitColon]
+  | cons a k ih =>
+    simp only [List.mem_cons, not_or] at hk
+    have ha : (a == ':') = false := by simpa using Ne.symm hk.1
+    simp only [List.cons_append, splitColon, ha, Bool.false_eq_true, if_false, ih hk.2]
+
+theorem splitColon_none (k : List Char) (hk : ':' ∉ k) : splitColon k = (k, none) := by
+  induction k with
+  | nil => simp [splitColon]
+  | cons a k ih =>
+    simp only [List.mem_cons, not_or] at hk
+    have ha : (a == ':') = false := by simpa using Ne.symm hk.1
+    simp only [splitColon, ha, Bool.false_eq_true, if_false, ih hk.2]
+
 end Verif.Proofs.Rename
